@@ -210,6 +210,47 @@ def CMP(op, a, b):
     return T("(%s %s %s)" % (op, a.s, b.s), "Bool")
 
 
+def _sexp_end(text, i):
+    """index just after the s-expression (atom or parenthesised) that starts at text[i]"""
+    if text[i] != "(":
+        j = i
+        while j < len(text) and not text[j].isspace() and text[j] not in "()":
+            j += 1
+        return j
+    depth, j = 0, i
+    while True:
+        if text[j] == "(":
+            depth += 1
+        elif text[j] == ")":
+            depth -= 1
+            if depth == 0:
+                return j + 1
+        j += 1
+
+
+def declare_only(defn):
+    """(define-fun[-rec] f ((x S1) ...) R body)  ->  (declare-fun f (S1 ...) R)"""
+    m = re.match(r"^\(define-fun(?:-rec)?\s+(\S+)\s+", defn)
+    name, i = m.group(1), m.end()
+    j = _sexp_end(defn, i)
+    params = defn[i + 1:j - 1].strip()
+    sorts, k = [], 0
+    while k < len(params):
+        if params[k].isspace():
+            k += 1
+            continue
+        e = _sexp_end(params, k)            # one binder (x S)
+        inner = params[k + 1:e - 1].strip()
+        v_end = _sexp_end(inner, 0)
+        sorts.append(inner[v_end:].strip())
+        k = e
+    r0 = j
+    while defn[r0].isspace():
+        r0 += 1
+    res = defn[r0:_sexp_end(defn, r0)]
+    return "(declare-fun %s (%s) %s)" % (name, " ".join(sorts), res)
+
+
 # ---------------------------------------------------------------------------
 class Registry(object):
     """Per-verification-unit declarations: sorts, constants, functions, axioms."""
@@ -360,7 +401,23 @@ class Registry(object):
             lines.append("(declare-const %s %s)" % (n, s))
         for k, t in self.key_consts.items():
             lines.append("(declare-const %s Key)" % t.s)
-        lines += [self.fun_decls[n] for n in self.fun_order if self.fun_decls[n].startswith("(define-fun")]
+        defs = [n for n in self.fun_order if self.fun_decls[n].startswith("(define-fun")]
+        if getattr(self, "prune_defs", False):
+            # keep a definition only if the query (axioms, hypotheses, goal, extra declarations) or a kept definition uses it
+            used = " ".join([a.s for a in self.axioms] + [h.s for h in hyps] + ([goal.s] if goal is not None else [])
+                            + list(extra_decls))
+            keep, changed = set(), True
+            while changed:
+                changed = False
+                for n in defs:
+                    if n not in keep and re.search(r"(?<![A-Za-z0-9_!|.$])%s(?![A-Za-z0-9_!|.$])" % re.escape(n), used):
+                        keep.add(n)
+                        used += " " + self.fun_decls[n].split(None, 2)[2]
+                        changed = True
+            defs = [n for n in defs if n in keep]
+        opaque = getattr(self, "opaque_defs", None) or ()
+        lines += [declare_only(self.fun_decls[n]) for n in defs if n in opaque]
+        lines += [self.fun_decls[n] for n in defs if n not in opaque]
         lines += list(extra_decls)
         if len(self.key_consts) > 1:
             lines.append("(assert (distinct %s))" % " ".join(t.s for t in self.key_consts.values()))
